@@ -116,6 +116,7 @@ VARIANTS = {
     'msan': ('clang', ['-O1', '-g', '-w', '-fsanitize=memory', '-fsanitize-memory-track-origins', '-fno-omit-frame-pointer'],
              ['-fsanitize=memory'], False),
     'cov': ('gcc', ['-O0', '-w', '--coverage'], ['--coverage'], False),
+    'alloc': ('gcc', ['-O2', '-w'], [os.path.join(HARNESS, 'allocpol.c')], False),
 }
 
 
